@@ -12,6 +12,11 @@ register(
         "GtModel.C08.list_swap_positive",
         "GtModel.C08.fdict_perm_cost",
         "GtModel.C08.fdict_perm_pairing",
+        # pairing by key at EVERY nesting level (Walk over the whole script) and for any two FixedKeyDictNodes
+        "GtModel.C08.fdict_perm_pairing_any_node",
+        "GtModel.C08.fdict_pairing_every_level",
+        "GtModel.C08.fdict_pairing_every_level_docs",
+        "GtModel.C08.pairing_spec_order_independent",
         "GtModel.sortKV_perm_eq",
         "GtModel.strLt_trans",
         "GtModel.strLt_total",
@@ -25,5 +30,9 @@ register(
     trusted=[
         "script stream: model output == real graphtage on every generated case (incl. key-permuted pairs)",
     ],
-    partial="",
+    partial="mapping keys are STRINGS in the Lean model (JSON objects): mappings with non-string keys (YAML / Python-object "
+            "entry points: 10 next to '10', True, 1.5, None) are covered by the monitor-only stream `mixedkeys`, no theorem; "
+            "pairing under strategy `none` is proved at every nesting level (fdict_pairing_every_level) for trees with "
+            "distinct keys and no DictNode, i.e. what build makes with allow_key_edits=False; under the default strategy "
+            "key order cannot matter because build sorts the pairs (build_perm_dict / dict_perm_script)",
 )
